@@ -17,7 +17,7 @@ RULE = ("cases = scripts of generated CREATE TABLE statements (abstract schema -
         "position, then seeded random schemas (1..8 tables x 1..12 columns) in canonical / one-column-per-line / "
         "free layouts, then stress tables (50..800 columns) and scripts (50..200 tables). A case is non-trivial "
         "when the reference model compares at least one column carrying a size or an option; distinct = distinct DDL text."
-        " Added after seeded defects: parenthesised / decimal defaults, 25% of column names and 12% of table names from the calibrated tricky vocabulary (vf.gen.vocab), zero sizes, CRLF scripts, signed-decimal defaults as a known-finding class.")
+        " Added after seeded defects: parenthesised / decimal defaults, 25% of column names and 12% of table names from the calibrated tricky vocabulary (vf.gen.vocab), zero sizes, CRLF scripts, signed-decimal defaults as a known-finding class, pg_dump casts to one- and two-word types as defaults, tables whose names are all delimited (some with blanks) read with normalize_names=True.")
 ASSUMPTIONS = ["only the core column fragment named in the property is generated (DESIGN 5)",
                "column names are plain identifiers here (C06 owns hostile names), literals are clean (C07 owns hostile ones)",
                "reporting conventions tolerated: {'columns':[x]} == {'column':x} in references, DEFAULT null == 'NULL'"]
@@ -42,13 +42,34 @@ def make_case(tables, layout, rng, gen):
     return {"gen": gen, "ddl": ddl, "expected": [S.table_expect(t) for t in tables], "layout": layout if isinstance(layout, (str, type(None))) else dict(layout)}
 
 
+SPACED = ["first name", "Order Date", "unit price", "a b c", "zip code", "Col 1"]
+
+
+def delimited_pair(t, rng):
+    """(table to render, table the result is expected to equal) for normalize_names=True: every column name and the table name written
+    between delimiters - some of them holding a blank (double quotes only) - and expected back bare"""
+    import copy
+    shown, bare = copy.deepcopy(t), copy.deepcopy(t)
+    for (k1, c1), (k2, c2) in zip(shown["items"], bare["items"]):
+        if rng.random() < 0.3:
+            nm = "%s %s" % (rng.choice(SPACED), c1["name"][-3:])
+            c1["name"], c2["name"] = '"%s"' % nm, nm
+        elif c1["name"][:1] not in '"[`':
+            a, b = rng.choice(['""', "``", "[]"])
+            c1["name"] = a + c1["name"] + b
+    if shown["name"][:1] not in '"[`':
+        nm = shown["name"] if rng.random() < 0.6 else "My Table " + shown["name"][-3:]
+        shown["name"], bare["name"] = '"%s"' % nm, nm
+    return shown, bare
+
+
 def check_case(ctx, case):
     ctx.evaluated()
     exp = case["expected"]
     if any(c["size"] is not None or c["default"] is not None or c["unique"] or c["references"] or not c["nullable"]
            for t in exp for c in t["columns"]):
         ctx.nontrivial_case(digest(case["ddl"]))
-    r = parse(case["ddl"])
+    r = parse(case["ddl"], case.get("ctor"))
     if r[0] == "exc":
         ctx.violation("exception", case, {"exception": r[1], "message": r[2]})
         return False
@@ -71,7 +92,7 @@ def check_case(ctx, case):
     if ok and n % 7 == 0:
         # the columns are reproduced on every call, not only on the first one on an object
         from vf.run import run_history
-        h = run_history(case["ddl"], None, [{}, {}, {"group_by_type": True}])
+        h = run_history(case["ddl"], case.get("ctor"), [{}, {}, {"group_by_type": True}])
         ctx.evaluated(3)
         ctx.obs["same_object_histories"] += 1
         if h[0] != ("ok", r[1]) or h[1] != ("ok", r[1]) or h[2][0] != "ok":
@@ -140,6 +161,14 @@ def run_shard(ctx):
         if i == 0:
             ctx.sample({"ddl": case["ddl"][:600], "expected_first_table": case["expected"][0]})
         ctx.obs["random_cases"] += 1
+        if i % 6 == 0:
+            # the same kind of tables with every name delimited, read with normalize_names=True: the columns come back bare, blanks kept
+            pairs = [delimited_pair(S.gen_table(rng, j, max_cols=8), rng) for j in range(rng.randint(1, 2))]
+            case = make_case([a for a, b in pairs], rng.choice(SAFE_LAYOUTS), rng, "delimited_normalized")
+            case["expected"] = [S.table_expect(b) for a, b in pairs]
+            case["ctor"] = {"normalize_names": True}
+            check_case(ctx, case)
+            ctx.obs["delimited_normalized_cases"] += 1
     # stress: very wide tables, long scripts
     widths = [50, 200] if ctx.tier == "quick" else [50, 200, 800]
     lengths = [50] if ctx.tier == "quick" else [50, 200]
